@@ -19,7 +19,7 @@ def check(chk: Check) -> None:
     F = chk.facts
     R1 = chk.rule('C20.R1', 'the line counter counts physical lines: every rule whose match can contain a line break adds '
                             'exactly the number of \\n in the matched alternative, at every bracket depth and whether or not a '
-                            'token is returned; no other rule touches the counter; both entry points reset it to 1', floor=9)
+                            'token is returned; no other rule touches the counter; both entry points reset it to 1', floor=6)
     R2 = chk.rule('C20.R2', 'the message reports the offending token\'s text and the line recorded on that token '
                             '(p.lineno), not the lexer\'s position after it', floor=1)
     R3 = chk.rule('C20.R3', 'an error at the very end of the text raises ParserError with a constant "end of input" '
